@@ -673,7 +673,20 @@ def rule_r6(prog, res) -> None:
 
             contains_any = any(is_any(x) for x in ast.walk(m))
             arith = any(isinstance(x, ast.Call) and (dotted(x.func) or "").split(".")[-1] in ("sum", "nansum", "mean", "prod", "max", "min") for x in ast.walk(m)) or isinstance(m, ast.Compare)
+            ax_bad = None
             if is_any(m):
+                # … over the BIN axis: the counts are stored as (bins, patches, patches), the mask is per patch pair
+                np_form = (dotted(m.func) or "").startswith(("np.", "numpy."))
+                arr = m.args[0] if np_form and m.args else m.func.value
+                if isinstance(arr, ast.Compare):
+                    arr = arr.left
+                ax = kwarg(m, "axis") or (m.args[1] if np_form and len(m.args) > 1 else (m.args[0] if not np_form and m.args else None))
+                if isinstance(arr, ast.Attribute) and arr.attr == "counts":
+                    if not (isinstance(ax, ast.Constant) and ax.value == 0):
+                        ax_bad = unparse(ax) if ax is not None else "none (all axes)"
+            if ax_bad is not None:
+                res.violation("C11.R6", w, sels[0], f"the mask of stored patch pairs reduces the counts over axis {ax_bad} instead of over the redshift bins (axis 0): it marks (bin, patch) combinations, not patch pairs — the stored pair list and values do not describe the counts, the file reads back as different counts", key_extra="sparse-mask-axis")
+            elif is_any(m):
                 res.ok("C11.R6", res.site(w, "non-zero mask"), f"mask {unparse(m)[:60]} marks a patch pair iff any bin is non-zero")
             elif contains_any:
                 res.violation(
@@ -701,6 +714,17 @@ def rule_r6(prog, res) -> None:
             sel_txt = unparse(sels[0])
             using = [(ev, d) for ev, d in stored if sel_txt in unparse(d)]
             masked = [(ev, d) for ev, d in stored if sel_txt not in unparse(d) and unparse(m) in unparse(d).replace(".T", "")]
+            # the values of one pair form one row: the bin axis of the selection `counts[:, i, j]` (axis 0) is moved to the
+            # end, nothing else
+            for ev, d in using:
+                for y in ast.walk(d):
+                    if isinstance(y, ast.Call) and (dotted(y.func) or "").split(".")[-1] == "moveaxis" and len(y.args) >= 3 and any(isinstance(z, ast.Subscript) for z in ast.walk(y.args[0])):
+                        try:
+                            a_, b_ = ceval(y.args[1], {}), ceval(y.args[2], {})
+                        except Unknown:
+                            continue
+                        if (a_, b_) not in ((0, -1), (0, 1)):
+                            res.violation("C11.R6", w, ev.node, f"the stored values are `{unparse(y)[:60]}`: the axis moved to the end is not the bin axis of the selection — the rows of the stored values no longer correspond to the rows of the pair list, counts are read back at other pairs / bins", key_extra="sparse-values-axis")
             if len(using) >= 2 and not masked:
                 res.ok("C11.R6", res.site(w, "pair/value order"), "the pair list and the values are selected by the same index arrays")
             elif masked and using:
@@ -896,6 +920,57 @@ def rule_r10(prog, res) -> None:
         raise AnalysisError(f"C11.R10: only {n} parameter-named attribute stores found in constructors, minimum 30")
 
 
+ITER_HELPERS = {"zip", "enumerate", "len", "range", "iter", "list", "tuple", "sorted", "reversed", "print", "debug", "info", "isinstance", "load_version_tag", "is_legacy_dataset"}
+
+
+def rule_r11(prog, res) -> None:
+    """what a reader takes from the file ends up in the object it returns: every member of the source group that
+    `from_hdf` reads (on the current-format and on the legacy arm) is mentioned in the returned expression or in the
+    arguments of a call that does something with it (a constructor, a setter of the object under construction) —
+    a member that is read and then only iterated over or dropped restores as zeros / defaults without any error.
+    Decided on the symbolic store (locals substituted by what they were read from)."""
+    from .. import symx
+
+    n = 0
+    for ci in prog.classes:
+        r = ci.methods.get("from_hdf")
+        if r is None or r.is_abstract or ci.methods.get("to_hdf") is None:
+            continue
+        src = r.param_names()[1] if len(r.param_names()) > 1 else "source"
+        res.touch(r)
+        for legacy in (False, True):
+            for p in _hdf_paths(prog, r, legacy):
+                if p.outcome != "return":
+                    continue
+                reads = {}
+                for ev in p.events:
+                    if ev.kind == "expr" and isinstance(ev.expr, ast.Subscript) and isinstance(ev.expr.value, ast.Name) and ev.expr.value.id == src:
+                        reads.setdefault(unparse(ev.expr), ev)
+                if not reads:
+                    continue
+                sinks = [unparse(p.value)] if p.value is not None else []
+                for ev in p.calls():
+                    if ev.callee in ITER_HELPERS:
+                        continue
+                    f = ev.expr.func
+                    if isinstance(f, ast.Attribute) and f.attr in ("debug", "info", "warning"):
+                        continue
+                    sinks.append(" ".join(unparse(a) for a in [*ev.expr.args, *[k.value for k in ev.expr.keywords]]))
+                    if isinstance(f, ast.Attribute) and f.attr not in ("keys", "values", "items"):
+                        sinks.append(unparse(f.value))  # source[name].attrs.get(...), source[name][:] as receiver of a conversion
+                # … and what is stored on the object under construction (new.attr = value, new[key] = value)
+                sinks += [unparse(ev.value) for ev in p.events if ev.kind == "store" and ev.value is not None]
+                for txt, ev in reads.items():
+                    n += 1
+                    # a read that is itself the receiver of a further read (`source["g"]["x"]`) is used through that one
+                    if any(txt in s_ for s_ in sinks) or any(txt in k and k != txt for k in reads):
+                        res.ok("C11.R11", res.site(r, f"{txt[:40]} [{'legacy' if legacy else 'current'}]"), "reaches the restored object", nontrivial=False)
+                    else:
+                        res.violation("C11.R11", r, ev.node, f"{ci.name}.from_hdf reads {txt[:50]} but the value reaches neither the returned object nor any call that builds it ({'legacy' if legacy else 'current'} format): that part of the stored object is restored as zeros / defaults, silently", key_extra=f"hdf-read-unused-{ci.name}-{txt[:30]}")
+    if n < 6:
+        raise AnalysisError(f"C11.R11: only {n} reads of HDF5 members followed, minimum 6")
+
+
 RULES = [
     ("C11.R1", rule_r1, QUICK),
     ("C11.R2", rule_r2, QUICK),
@@ -907,4 +982,5 @@ RULES = [
     ("C11.R8", rule_r8, QUICK),
     ("C11.R9", rule_r9, QUICK),
     ("C11.R10", rule_r10, QUICK),
+    ("C11.R11", rule_r11, QUICK),
 ]
